@@ -13,8 +13,13 @@ Inductive case :=
 | CAttrLen (tag declared actual : N) (r : real)       (* unknown attribute (0) / SourceDebugExtension (1) at the end of the file *)
 | CLine (l : list N) (r : real)                       (* tiny v2 header + this line (bytes) *)
 | CDesc (kind : N) (s : str) (r : real)               (* 0 field 1 method 2 return descriptor *)
-| CNest (kind depth : N) (r : real)                   (* 0 arrays / 1 annotations in an element value, 2 Enigma CLASS sections *)
-| CShared (k a input_len : N) (r : real).             (* k invokedynamic instructions sharing a arguments (known finding F17) *)
+| CNest (kind depth : N) (r : real)                   (* element value: 0 arrays / 1 annotations / 3, 4 alternating; 2 Enigma CLASS sections *)
+| CShared (k a input_len : N) (r : real)              (* k invokedynamic instructions sharing a arguments (known finding F17) *)
+| CBootN (g : list (list N)) (roots : list N) (indy : bool) (r : real) (expanded : option N)
+    (* one instruction with several top-level bootstrap arguments; [expanded] = the number of
+       bootstrap arguments (counting nested ones) found in the instruction of the accepted tree *)
+| CArgSize (desc : str) (r : real)                    (* invokeinterface with this descriptor: what the class WRITER did *)
+| CUnesc (cell : str) (r : real) (got : str).         (* tiny v2 class comment cell and the comment the reader stored *)
 
 (* the model's answer and the observed one agree exactly *)
 Definition same {A} (m : out A) (r : real) : bool :=
@@ -39,4 +44,15 @@ Definition check (c : case) : bool :=
   | CDesc k s r => same (desc_out k s) r
   | CNest k depth r => same (if k =? 2 then enigma_class_chain depth else element_value_chain depth) r
   | CShared k a len r => same (shared_args_alloc k a len) r
+  | CBootN g roots indy r expanded =>
+      let m := boot_roots g roots indy in
+      same m r &&
+      match m, expanded with
+      | Done lft, Some c => c =? max_expanded - lft   (* the tree holds exactly what the budget paid for *)
+      | Done _, None => false
+      | _, None => true
+      | _, Some _ => false
+      end
+  | CArgSize desc r => same (arguments_size desc) r
+  | CUnesc cell r got => match r with ROk => str_eqb (unescape_cp cell) got | _ => false end
   end.
